@@ -346,7 +346,10 @@ fn launch_rdp_thread<S: 'static + Read + Write + Send>(
     bitmap_channel: Sender<BitmapEvent>) -> RdpResult<JoinHandle<()>> {
     // Create the rdp thread
     Ok(thread::spawn(move || {
-        while wait_for_fd(handle as usize) && sync.load(Ordering::Relaxed) {
+        // The last TLS record read during the connection step may carry more
+        // than the PDU connect was waiting for : what is left in the TLS layer
+        // have to be dispatched before waiting for the socket
+        while (rdp_client.lock().unwrap().has_buffered_data() || wait_for_fd(handle as usize)) && sync.load(Ordering::Relaxed) {
             let mut guard = rdp_client.lock().unwrap();
             // One TLS record may carry several PDU : once the record is read the socket
             // is not readable anymore, so read until the TLS layer is empty
